@@ -3,7 +3,7 @@
 set -e
 cd "$(dirname "$0")"
 export GOFLAGS=-mod=mod GOPROXY=off GOSUMDB=off GOTOOLCHAIN=local
-mkdir -p .build evidence replays
+mkdir -p .build evidence replays coq/Generated
 python3 -c "
 import sys; sys.argv=['check']; sys.path.insert(0,'.')
 import importlib.util, importlib.machinery
